@@ -32,7 +32,7 @@ func runC04() *RunResult {
 	ns := 1 + rn(4)
 	for i := 0; i < ns; i++ {
 		cfg := genCfg(true)
-		p := filterHeavyPath(cfg.Funcs, trap)
+		p := filterHeavyPath(w.docs[rn(nd)].Val, cfg.Funcs, trap)
 		w.shared = append(w.shared, soloParse(p, cfg))
 		cases = append(cases, fnv(p.Text+"|"+w.docs[0].Snap))
 	}
@@ -47,8 +47,12 @@ func runC04() *RunResult {
 				t.ops = append(t.ops, &Op{Kind: opCallShared, Slot: s, Doc: rn(nd), Path: sp.Path, Cfg: sp.Cfg, Faults: drawFaults(sp.Path.UsesFuncs)})
 			} else {
 				cfg := genCfg(true)
-				p := filterHeavyPath(cfg.Funcs, trap)
-				t.ops = append(t.ops, &Op{Kind: opRetrieve, Path: p, Cfg: cfg, Doc: rn(nd), Faults: drawFaults(p.UsesFuncs)})
+				di := rn(nd)
+				p := filterHeavyPath(w.docs[di].Val, cfg.Funcs, trap)
+				if chance(25) {
+					di = rn(nd)
+				}
+				t.ops = append(t.ops, &Op{Kind: opRetrieve, Path: p, Cfg: cfg, Doc: di, Faults: drawFaults(p.UsesFuncs)})
 				cases = append(cases, fnv(p.Text+"|"+w.docs[0].Snap))
 			}
 		}
@@ -63,20 +67,25 @@ func runC04() *RunResult {
 
 // filterHeavyPath biases generation towards filters combining ==, !=, &&, ||, ! over
 // operands that are present, missing or $-rooted.
-func filterHeavyPath(funcs uint32, trap bool) *PathSpec {
+func filterHeavyPath(doc interface{}, funcs uint32, trap bool) *PathSpec {
 	if chance(30) {
-		return genPath(funcs, trap, 4, 2)
+		return genPathFor(doc, funcs, trap, 4, 2)
 	}
 	spec := &PathSpec{}
-	g := &pathGen{funcs: funcs, trap: trap, spec: spec}
+	g := &pathGen{funcs: funcs, trap: trap, spec: spec, cur: doc, aware: doc != nil}
 	s := "$"
 	if chance(40) {
-		s += nameStep(plainKeys[rn(len(plainKeys))])
+		t, _ := g.step()
+		s += t
 	}
 	if chance(15) {
 		s += pick([]string{".*", "..*", "[*]", "[0:3]"})
+		g.cur = nil
 	}
+	g.members = membersOf(g.cur)
 	s += "[?(" + g.query(3) + ")]"
+	g.members = nil
+	g.cur = nil
 	if chance(40) {
 		t, _ := g.step()
 		s += t
